@@ -32,7 +32,7 @@ PROPS = {
     'C08': {
         'title': 'Compilation is total: every input yields a result or a rendered diagnostic',
         # roll-up: panic / overflow / bounds freedom of every function under contract (tag C08 in each unit)
-        'v_units': ['cond_chain', 'cond_parser', 'bindings', 'lexer_digits', 'token_stream', 'source_manager', 'layout', 'hlsl_bindings', 'hlsl_analyse', 'hlsl_expr'],
+        'v_units': ['cond_chain', 'cond_parser', 'bindings', 'lexer_digits', 'token_stream', 'source_manager', 'layout', 'hlsl_bindings', 'hlsl_analyse', 'hlsl_expr', 'hlsl_literal'],
         'k_groups': [],
         'design_ref': 'DESIGN.md §3 C08',
     },
@@ -50,7 +50,7 @@ PROPS = {
     },
     'C01': {
         'title': 'HLSL export preserves the meaning of every accepted program',
-        'v_units': ['hlsl_expr'],
+        'v_units': ['hlsl_expr', 'hlsl_literal'],
         'k_groups': [],
         'design_ref': 'DESIGN.md Part I, I.4 (C01)',
     },
